@@ -73,10 +73,37 @@ theorem init_ready (sport m : Nat) (dst dst4 : Bytes) (port : Nat) (hd : IsV4 ds
   · refine ⟨⟨0, 0, 0, 0, 0, 0, 0, 0, 0, 0, rfl⟩, ⟨0, 8, ?_⟩, by simp⟩
     simp [Nat.mod_eq_of_lt hsp, Nat.mod_eq_of_lt hp]
 
-theorem step_spec (sport port m : Nat) (w : Worker) (src dst src4 dst4 payload : Bytes)
-    (hw : Ready sport port m w) (hs : IsV4 src src4) (hd : IsV4 dst dst4) (hm : payload.length ≤ m)
+/-- the octets a loop iteration hands to `Send`, with the two length fields as the code computes them
+(`IPv4HLen+uint16(n)` in 16 bits, `uint16(UDPHLen+n)`): for `28 + length ≤ 65535` this is `ipv4udp` -/
+def wire (src4 dst4 : Bytes) (sport port : Nat) (payload : Bytes) : Bytes :=
+  [0x45, 0] ++ encBE 2 ((ipv4HLen + (payload.length + udpHLen) % 65536) % 65536) ++
+  [0, 0, 0, 0, 64, 17, 0, 0] ++ src4 ++ dst4 ++
+  encBE 2 sport ++ encBE 2 port ++ encBE 2 ((udpHLen + payload.length) % 65536) ++ [0, 0] ++ payload
+
+theorem wire_eq_ipv4udp (src4 dst4 : Bytes) (sport port : Nat) (payload : Bytes)
     (hlen : 28 + payload.length ≤ 65535) :
-    ∃ w', w.step (m : Int) dst src payload = .ok (w', ipv4udp src4 dst4 sport port payload) ∧
+    wire src4 dst4 sport port payload = ipv4udp src4 dst4 sport port payload := by
+  have hT : (ipv4HLen + (payload.length + udpHLen) % 65536) % 65536 = 20 + 8 + payload.length := by
+    simp only [ipv4HLen, udpHLen]; omega
+  have hU : (udpHLen + payload.length) % 65536 = 8 + payload.length := by
+    simp only [udpHLen]; omega
+  simp [wire, ipv4udp, hT, hU]
+
+theorem wire_length (src4 dst4 : Bytes) (sport port : Nat) (payload : Bytes)
+    (hs : src4.length = 4) (hd : dst4.length = 4) :
+    (wire src4 dst4 sport port payload).length = 28 + payload.length := by
+  simp [wire, encBE_two, hs, hd]; omega
+
+theorem ipv4udp_length (src4 dst4 : Bytes) (sport port : Nat) (payload : Bytes)
+    (hs : src4.length = 4) (hd : dst4.length = 4) :
+    (ipv4udp src4 dst4 sport port payload).length = 28 + payload.length := by
+  simp [ipv4udp, encBE_two, hs, hd]; omega
+
+/-- one loop iteration on the buffers of a worker that has handled any number of messages: never a panic,
+for a payload of ANY length up to `max` (beyond 65507 octets the length fields wrap, see `wire`) -/
+theorem step_spec (sport port m : Nat) (w : Worker) (src dst src4 dst4 payload : Bytes)
+    (hw : Ready sport port m w) (hs : IsV4 src src4) (hd : IsV4 dst dst4) (hm : payload.length ≤ m) :
+    ∃ w', w.step (m : Int) dst src payload = .ok (w', wire src4 dst4 sport port payload) ∧
       Ready sport port m w' := by
   have hs4 := to4_isV4 hs
   have hd4 := to4_isV4 hd
@@ -86,24 +113,22 @@ theorem step_spec (sport port m : Nat) (w : Worker) (src dst src4 dst4 payload :
   obtain ⟨⟨t0, t1, a0, a1, a2, a3, b0, b1, b2, b3, hi⟩, ⟨u0, u1, hu⟩, hpk⟩ := hw
   simp only at hi hu hpk
   subst hi; subst hu
-  have hT : (ipv4HLen + (payload.length + udpHLen) % 65536) % 65536 = 28 + payload.length := by
-    simp only [ipv4HLen, udpHLen]; omega
-  have hU : (udpHLen + payload.length) % 65536 = 8 + payload.length := by
-    simp only [udpHLen]; omega
+  generalize hT : (ipv4HLen + (payload.length + udpHLen) % 65536) % 65536 = T
+  generalize hU : (udpHLen + payload.length) % 65536 = U'
   have hsa : setAddrs [0x45, 0, t0, t1, 0, 0, 0, 0, 64, 17, 0, 0, a0, a1, a2, a3, b0, b1, b2, b3] src dst
       = .ok [0x45, 0, t0, t1, 0, 0, 0, 0, 64, 17, 0, 0, s0, s1, s2, s3, d0, d1, d2, d3] := by
     simp [setAddrs, hs4, hd4, copyInto]
   have hsl : setLen4 [0x45, 0, t0, t1, 0, 0, 0, 0, 64, 17, 0, 0, s0, s1, s2, s3, d0, d1, d2, d3] (payload.length + udpHLen)
-      = .ok ([0x45, 0] ++ encBE 2 (28 + payload.length) ++ [0, 0, 0, 0, 64, 17, 0, 0, s0, s1, s2, s3, d0, d1, d2, d3]) := by
+      = .ok ([0x45, 0] ++ encBE 2 T ++ [0, 0, 0, 0, 64, 17, 0, 0, s0, s1, s2, s3, d0, d1, d2, d3]) := by
     simp [setLen4, putU16, hT]
   have hul : udpSetLen (encBE 2 sport ++ encBE 2 port ++ [u0, u1, 0, 0]) payload.length
-      = .ok (encBE 2 sport ++ encBE 2 port ++ encBE 2 (8 + payload.length) ++ [0, 0]) := by
+      = .ok (encBE 2 sport ++ encBE 2 port ++ encBE 2 U' ++ [0, 0]) := by
     simp [udpSetLen, putU16, hU, encBE_two]
   unfold Worker.step
   simp only [hsa, hsl, hul, ok_bind]
-  generalize hH : ([0x45, 0] ++ encBE 2 (28 + payload.length) ++
+  generalize hH : ([0x45, 0] ++ encBE 2 T ++
       [0, 0, 0, 0, 64, 17, 0, 0, s0, s1, s2, s3, d0, d1, d2, d3] : Bytes) = H
-  generalize hUh : (encBE 2 sport ++ encBE 2 port ++ encBE 2 (8 + payload.length) ++ [0, 0] : Bytes) = U
+  generalize hUh : (encBE 2 sport ++ encBE 2 port ++ encBE 2 U' ++ [0, 0] : Bytes) = U
   have hHl : H.length = 20 := by subst hH; simp [encBE_two]
   have hUl : U.length = 8 := by subst hUh; simp [encBE_two]
   have c1 : copyInto packet 0 ipv4HLen H = .ok (H ++ packet.drop 20) := by
@@ -135,8 +160,8 @@ theorem step_spec (sport port m : Nat) (w : Worker) (src dst src4 dst4 payload :
   have htk : ipv4HLen + 8 + payload.length = ((H ++ U) ++ payload).length := by simp [hHl, hUl, ipv4HLen]; omega
   rw [htk, List.take_left']
   · refine ⟨⟨H, U, H ++ U ++ payload ++ List.drop (28 + payload.length) packet⟩, ?_, ?_⟩
-    · subst hH; subst hUh
-      simp [ipv4udp, encBE_two]
+    · subst hH; subst hUh; subst hT; subst hU
+      simp [wire, encBE_two]
     · subst hH; subst hUh
       refine ⟨?_, ?_, ?_⟩
       · simp only [encBE_two]
@@ -153,5 +178,57 @@ theorem v4of_isV4 {ip a : Bytes} (h : IsV4 ip a) : v4of ip = a := by
   · obtain ⟨a, b, c, d, rfl⟩ := len4 a h4
     subst h
     simp [v4of, mapped]
+
+/-- the loop on the buffers of a ready worker, for EVERY send function and every sequence of IPv4-sourced
+messages up to `max`: what went out are the packets the kernel took, in order; a refused packet costs
+only itself -/
+theorem run_spec (send : Bytes → Bool) (sport port m : Nat) (dst dst4 : Bytes) (hd : IsV4 dst dst4)
+    (msgs : List (Bytes × Bytes)) (w : Worker) (hw : Ready sport port m w)
+    (hv : ∀ x ∈ msgs, IsV4 x.1 (v4of x.1) ∧ x.2.length ≤ m) :
+    w.run send (m : Int) dst msgs =
+      .ok ((msgs.map (fun x => wire (v4of x.1) dst4 sport port x.2)).filter send) := by
+  induction msgs generalizing w with
+  | nil => rfl
+  | cons x rest ih =>
+    obtain ⟨src, payload⟩ := x
+    have hx := hv (src, payload) (by simp)
+    obtain ⟨w', hstep, hw'⟩ := step_spec sport port m w src dst (v4of src) dst4 payload hw hx.1 hd hx.2
+    simp only [Worker.run, hstep, ok_bind, List.map_cons]
+    rw [ih w' hw' (fun y hy => hv y (by simp [hy]))]
+    simp only [ok_bind, List.filter_cons]
+
+/-- two packet functions that agree wherever the kernel takes either packet give the same emissions -/
+theorem filter_map_congr {α : Type} (send : Bytes → Bool) (f g : α → Bytes) (l : List α)
+    (h : ∀ x ∈ l, f x = g x ∨ (send (f x) = false ∧ send (g x) = false)) :
+    (l.map f).filter send = (l.map g).filter send := by
+  induction l with
+  | nil => rfl
+  | cons a t ih =>
+    have iht := ih (fun y hy => h y (by simp [hy]))
+    rcases h a (by simp) with he | ⟨h1, h2⟩
+    · simp only [List.map_cons, List.filter_cons, he, iht]
+    · simp only [List.map_cons, List.filter_cons, h1, h2, iht]
+      rfl
+
+theorem isV4_of_to4 {ip : Bytes} (h : (to4 ip).isSome = true) : IsV4 ip (v4of ip) := by
+  unfold to4 at h
+  split at h
+  · rename_i h4
+    exact ⟨by simp [v4of, h4], .inl (by simp [v4of, h4])⟩
+  · split at h
+    · rename_i h16
+      obtain ⟨hl, hz, hf⟩ := h16
+      refine ⟨by simp [v4of, hl], .inr ?_⟩
+      have e : ip = ip.take 10 ++ ((ip.drop 10).take 2 ++ ip.drop 12) := by
+        have h12 : ip.drop 12 = (ip.drop 10).drop 2 := by rw [List.drop_drop]
+        rw [h12, List.take_append_drop, List.take_append_drop]
+      rw [hz, hf] at e
+      simp only [v4of, hl, mapped]
+      rw [List.append_assoc]
+      exact e
+    · simp at h
+
+theorem to4_isSome_iff (ip : Bytes) : (to4 ip).isSome = true ↔ IsV4 ip (v4of ip) :=
+  ⟨isV4_of_to4, fun h => by rw [to4_isV4 h]; rfl⟩
 
 end Vflow.Mirror
